@@ -834,32 +834,99 @@ def run_tdconv(us: int, ts: int, step: int, denom: int):
     return (tc, b, mul, numer), fails
 
 
+TD_MAX_US = 86400 * 10 ** 6 * 10 ** 9 - 1      # timedelta.max in microseconds
+DAY_LIMIT = 86400 * 10 ** 9                    # ticks-as-seconds would leave timedelta's range here
+CLOCK_YEARS = (2023, 2024, 2026, 2027, 2032, 2038, 2050, 2075, 2100)
+
+
+def representable(tc: int, ts: int, step: int) -> bool:
+    """both timecodes denote a duration a timedelta can hold (so the function has a value to return)"""
+    return all(abs(t * 1000000 // ts) <= TD_MAX_US for t in (tc, tc + step))
+
+
+def epoch_seconds(year: int, frac: float = 0.0) -> int:
+    days = orc.day_number(year, 1, 1) - orc.EPOCH_DAY
+    return days * 86400 + int(frac * 365 * 86400)
+
+
+def residue_timecode(ts: int, r: int, k: int) -> int:
+    """a timecode whose scaled value tc*10^6 leaves (about) remainder r modulo ts: the places where
+    floor, round-half-even and round-half-up of tc*10^6/ts differ"""
+    import math
+    g = math.gcd(1000000, ts)
+    m = ts // g
+    if m == 1:
+        return k
+    a = (1000000 // g) % m
+    return ((r // g) * pow(a, -1, m)) % m + m * k
+
+
 def gen_ticks(rng, n):
     out = []
     for ts in TIMESCALES:
         for tc in (0, 1, 2, 19, 240, 461824, ts - 1, ts, ts + 1, 86400 * ts - 1, 2 ** 32, 2 ** 40 + 12345):
             out.append((tc, ts, 1))
+        # ticks since the Unix epoch at present and future clocks ("start=epoch" streams)
+        for y in CLOCK_YEARS:
+            out.append((epoch_seconds(y, .37) * ts + (ts // 3), ts, 1))
+        # magnitudes at which an intermediate "ticks as seconds/days" value would overflow
+        for tc in (DAY_LIMIT - 1, DAY_LIMIT, DAY_LIMIT + 1, 86400 * 2 ** 31 - 1, 86400 * 2 ** 31, 2 ** 53 + 1,
+                   2 ** 63 - 1, 2 ** 63, 2 ** 64 + 1):
+            out.append((tc, ts, 1))
+        # rounding boundaries of tc*10^6/ts
+        for r in (0, 1, ts // 2 - 1, ts // 2, ts // 2 + 1, ts - 1):
+            out.append((residue_timecode(ts, max(0, r), 7), ts, 1))
     while len(out) < n:
         ts = rng.choice(TIMESCALES) if rng.random() < .5 else (
             rng.randrange(1, 10 ** 7 + 1) if rng.random() < .5 else int(10 ** rng.uniform(0, 7)))
+        ts = max(1, ts)
         k = rng.random()
-        if k < .4:
+        if k < .3:
             tc = rng.randrange(0, 2 ** rng.randrange(1, 45))
-        elif k < .7:
+        elif k < .5:
             tc = max(0, ts * rng.randrange(0, 100000) + rng.choice([-1, 0, 1]))
-        elif k < .95:
+        elif k < .65:
             tc = rng.randrange(0, 10000)
+        elif k < .8:       # epoch-anchored "now" at clocks 2023..2100
+            tc = epoch_seconds(rng.randrange(2023, 2101), rng.random()) * ts + rng.randrange(0, ts)
+        elif k < .95:      # rounding boundaries, small and epoch-sized
+            r = rng.choice([0, 1, ts // 2 - 1, ts // 2, ts // 2 + 1, ts - 1, rng.randrange(0, ts)])
+            tc = residue_timecode(ts, max(0, r), rng.choice([0, 1, rng.randrange(0, 10 ** 6), 4 * 10 ** 9 // 3]))
+        elif k < .97:
+            tc = rng.choice([DAY_LIMIT, 86400 * 2 ** 31, 2 ** 53, 2 ** 63]) + rng.randrange(-2, 3)
         else:
             tc = -rng.randrange(1, 10 ** 9)
-        out.append((tc, max(1, ts), rng.choice([1, 1, 2, rng.randrange(1, 1000)])))
-    return out
+        out.append((tc, ts, rng.choice([1, 1, 2, rng.randrange(1, 1000)])))
+    return [c for c in out if representable(*c)]
+
+
+def shrink_ticks(tc: int, ts: int):
+    """smallest failing timecode found: small values first, then bisection on the magnitude"""
+    for t in range(0, 64):
+        if run_tcconv(t, ts, 1)[1]:
+            return t
+    if tc > 64 and not run_tcconv(tc // 2, ts, 1)[1]:
+        lo, hi = tc // 2, tc                       # lo passes, hi fails
+        for _ in range(80):
+            if hi - lo <= 1:
+                break
+            mid = (lo + hi) // 2
+            if run_tcconv(mid, ts, 1)[1]:
+                hi = mid
+            else:
+                lo = mid
+        return hi
+    return tc
 
 
 def channel_tcconv(ctx):
     ch = Channel("tcconv", rule=(
         "(timecode, timescale) and (timedelta, timescale) pairs: usual media timescales, 10^6 +-1, up to 10^7, "
         "seeded uniform and log-uniform timescales 1..10^7; timecodes at multiples of the timescale +-1, up to "
-        "2^45, a few negative; results of timecode_to_timedelta, timedelta_to_timecode, multiply_timedelta and "
+        "2^45, ticks since the Unix epoch at clocks 2023..2100 (up to 4e16), the magnitudes 86400e9, 86400*2^31, "
+        "2^53, 2^63, 2^64 +-1 (all durations a timedelta can hold), timecodes with tc*10^6 mod ts in "
+        "{0, 1, ts/2-1, ts/2, ts/2+1, ts-1}, a few negative; an exception from the real function is an oracle "
+        "failure; results of timecode_to_timedelta, timedelta_to_timecode, multiply_timedelta and "
         "scale_timedelta (numerator) equal the model's; oracle: monotone against a second point, inverse within "
         "one tick (tc->td->tc only for timescale <= 10^6, the hypothesis of tc_roundtrip_partial). non-trivial = "
         "the division is inexact (a remainder is dropped); distinct by (direction, value, timescale)"))
@@ -884,7 +951,7 @@ def channel_tcconv(ctx):
         if (tc * 1000000) % ts:
             ch.nontrivial.add(("tc", tc, ts))
         if fails:
-            small = next((t for t in range(0, 64) if run_tcconv(t, ts, 1)[1]), tc)
+            small = shrink_ticks(tc, ts)
             ch.oracle_failures.append({"kind": "tcconv", "input": {"timecode": small, "timescale": ts, "step": 1},
                                        "what": run_tcconv(small, ts, 1)[1] or fails})
         want = None if got is None else f"{got[0]} {got[1]}"
